@@ -138,7 +138,7 @@ func runConnPath(g *connGroup, path []connStep, res *hx.Result) (sig, desc strin
 		name := st.Act.P
 		c := rg.clients[name]
 		switch st.Act.Op {
-		case "AllowCheck":
+		case "AllowCheck", "Refuse":
 			pre := rg.nd.ps.numChecks()
 			if err := c.connect(srv); err != nil {
 				rg.phase[name] = "refused" // listener closed: nothing is accepted any more
